@@ -153,6 +153,12 @@ fn tail_rec_param_name(name: &str) -> String {
   format!("_tailrec_param_{name}")
 }
 
+/// Whether a function's first parameter is the closure context (`_this`),
+/// also after the rewrite above has renamed the parameters.
+pub(super) fn is_context_parameter(heap: &Heap, name: PStr) -> bool {
+  name == PStr::UNDERSCORE_THIS || name.as_str(heap) == "_tailrec_param__this"
+}
+
 fn optimize_function_by_tailrec_rewrite_aux(
   heap: &mut Heap,
   function: Function,
